@@ -99,6 +99,10 @@ func GenCase(seed int64, idx int, in *runIn) Case {
 		n := len(c.Work.Script)
 		// the last fifth of the script runs after everything has been enabled again
 		c.Work.Flush = &FlushCfg{At: n - n/5, InFlight: idx%2 == 1, Filters: in.Filters, Seed: seed + int64(idx)}
+		if c.Work.Sweep > 0 {
+			c.Work.Flush.At = c.Work.Sweep
+			c.Work.Flush.InFlight = (idx/max(in.SlowEvery, 1))%2 == 1
+		}
 	}
 	return c
 }
